@@ -250,6 +250,10 @@ def run(ctx):
     check_dead_flag_lowering(ctx, 'R3')
     check_ident_reads(ctx)
     check_forced_kill_eof(ctx, 'R6')
+    # a timeout left on the control socket turns every answer that takes longer - wait(t) on a busy child - into 'the remote side is gone': the control
+    # channel is closed, terminate(force=True) can no longer reach the child and ends by signalling the caller (shared with C02.R6 / C06.R6)
+    from ..sockets import check_blocking_sockets
+    check_blocking_sockets(ctx, 'R6')
     P = ctx.prog
     us = units(ctx)
     ctx.floor('wait/terminate/is_alive implementation bodies', len(us), 14)
@@ -259,6 +263,19 @@ def run(ctx):
         g = ctx.an.cfg(f, cls)
         F = f.short + (f'[{region}]' if region != 'all' else '')
         tparams = [p for p in f.all_params() if 'timeout' in p]
+        # ... and the locals computed from them (a deadline, the time remaining): a local all of whose definitions mention a timeout parameter or
+        # another such local
+        changed = True
+        while changed:
+            changed = False
+            defs = {}
+            for st in walk_local(f.node):
+                if isinstance(st, ast.Assign) and len(st.targets) == 1 and isinstance(st.targets[0], ast.Name):
+                    defs.setdefault(st.targets[0].id, []).append(st.value)
+            for k, vs in defs.items():
+                if k not in tparams and all(names_in(v) & set(tparams) for v in vs):
+                    tparams.append(k)
+                    changed = True
         # ------------------------------------------------------------ R1 bounded blocking
         if region == 'server' and f.name in ('close', '_release_child'):
             continue
